@@ -65,6 +65,11 @@ func validateType(input any) error {
 		break
 	case system.Collection:
 		for _, elem := range v {
+			if _, nested := elem.(system.Collection); nested {
+				// FHIRPath collections are flat: items are values, never collections.
+				err = errors.Join(err, fmt.Errorf("%w: nested %T", ErrUnsupportedType, elem))
+				continue
+			}
 			err = errors.Join(err, validateType(elem))
 		}
 	default:
